@@ -139,6 +139,35 @@ func main() {
 			failures = append(failures, failure{"sni-differs", target, "server_name in the ClientHello: " + sni, fmt.Sprintf("case %d: the certificate presented in the tunnel does not verify for the CONNECT target: %v", i, err)})
 		}
 	}
+	// validity counts from ISSUANCE: a leaf issued three seconds after another one expires about three seconds later
+	// (a window anchored at process start would hand out ever shorter-lived, finally dead-on-arrival leaves)
+	{
+		leafOf := func(host string) (*x509.Certificate, time.Time) {
+			c, err := connect(env, host+":443")
+			if err != nil {
+				return nil, time.Time{}
+			}
+			defer c.Close()
+			at := time.Now()
+			tc := tls.Client(c, &tls.Config{ServerName: host, InsecureSkipVerify: true})
+			if tc.Handshake() != nil || len(tc.ConnectionState().PeerCertificates) == 0 {
+				return nil, time.Time{}
+			}
+			return tc.ConnectionState().PeerCertificates[0], at
+		}
+		l1, t1 := leafOf("early.example.org")
+		time.Sleep(3 * time.Second)
+		l2, t2 := leafOf("late.example.org")
+		total++
+		dist["validity-from-issuance"]++
+		if l1 != nil && l2 != nil {
+			gap, apart := l2.NotAfter.Sub(l1.NotAfter), t2.Sub(t1)
+			if gap < apart-1500*time.Millisecond {
+				failures = append(failures, failure{"validity-from-issuance", "late.example.org", "early.example.org",
+					fmt.Sprintf("two leaves issued %.1f s apart expire %.1f s apart: the validity window is not counted from issuance", apart.Seconds(), gap.Seconds())})
+			}
+		}
+	}
 	// bursts of concurrent tunnels
 	for round := 0; round < rounds/3+1; round++ {
 		var wg sync.WaitGroup
@@ -193,7 +222,7 @@ func main() {
 	}
 	out := map[string]any{
 		"harness": "tunnelcert", "seed": *flagSeed, "tier": *flagTier, "total": total, "distinct": total, "distinct_nontrivial": total,
-		"rule":         "real proxy, CONNECT tunnels: forced schedule CONNECT A / 200 / CONNECT B / 200 / handshake in either order (different hosts, and the same host twice) + a ClientHello whose server_name differs from the CONNECT target (alias, name for an IP target, other letter case, none) + bursts of 12 concurrent tunnels to 5 hosts + a proxy whose ca_cert is a chain file (signing CA followed by its root); every handshake is verified by crypto/tls against the configured CA with the tunnel's own host as server name (chain, name, validity now)",
+		"rule":         "real proxy, CONNECT tunnels: forced schedule CONNECT A / 200 / CONNECT B / 200 / handshake in either order (different hosts, and the same host twice) + a ClientHello whose server_name differs from the CONNECT target (alias, name for an IP target, other letter case, none) + two leaves issued 3 s apart expire about 3 s apart + bursts of 12 concurrent tunnels to 5 hosts + a proxy whose ca_cert is a chain file (signing CA followed by its root); every handshake is verified by crypto/tls against the configured CA with the tunnel's own host as server name (chain, name, validity now)",
 		"distribution": map[string]any{"scenario": dist},
 		"samples":      []any{map[string]any{"scenario": "overlapped-setup", "first": "alpha0.example.org", "second": "beta0.example.net"}},
 		"files":        []string{}, "readable": []any{},
